@@ -325,6 +325,10 @@ impl Prop for C04 {
             Tier::Thorough => 3000,
         }
     }
+    fn hang_timeout_s(&self) -> u64 {
+        // one run enumerates every crash point of its history and reports only at the end
+        5400
+    }
     fn generate(&self, seed: u64, tier: Tier) -> Value {
         let rng = Rng::new(seed);
         let p = profile(&mut rng.derive("profile"));
